@@ -400,3 +400,143 @@ def c05_r5(ctx):
     rebound = any(isinstance(st, ast.Assign) and any(norm.canon(t) == "self.matcher" for t in st.targets)
                   and any(norm.call_name(c) == "replace" for c in norm.calls_in(norm.inline_defs(st.value, f.node))) for st in ast.walk(f.node))
     ctx.ob(f, rebound, "self.matcher is rebound to the result of replace()")
+
+
+STALE_MUTATORS = ("append", "extend", "add", "update", "insert", "pop", "remove", "clear", "setdefault", "discard", "sort", "popitem",
+                  "next", "skip_to", "skip_to_quality", "reset", "write", "close")
+
+
+def _direct_self_stores(funcnode):
+    s = set()
+    for st in ast.walk(funcnode):
+        tg = st.targets if isinstance(st, ast.Assign) else ([st.target] if isinstance(st, ast.AugAssign) else [])
+        for t in tg:
+            for x in (t.elts if isinstance(t, (ast.Tuple, ast.List)) else [t]):
+                if isinstance(x, ast.Attribute) and isinstance(x.value, ast.Name) and x.value.id == "self":
+                    s.add(x.attr)
+    return s
+
+
+@rule("C05", "R6", "K1", "a local alias of an attribute is not worked on after the attribute has been re-bound",
+      min_instances=1, also=("C08", "C18", "C10", "C20"),
+      clause="Within a method, after `x = self.A`, no path re-binds self.A (directly, or through a self-call that -- followed through the "
+             "class hierarchy -- assigns self.A) and then goes on to mutate or advance the object through the now stale alias x (append/"
+             "extend/add/update/... , item assignment, matcher next()/skip_to()/skip_to_quality()) without x having been re-bound: the "
+             "work is done on an object the instance no longer refers to (a posting appended to a list already written out as a run, a "
+             "loop advancing the old matcher tree while collect() scores with the replaced one, rows flushed from a buffer that was "
+             "swapped).")
+def c05_r6(ctx):
+    prog = ctx.prog
+    direct = {}
+    for f in prog.functions.values():
+        if f.cls is not None:
+            direct[f.qualname] = _direct_self_stores(f.node)
+    memo = {}
+
+    def rebinds(cls, attr, name, seen=None):
+        key = (cls.qualname, attr, name)
+        if key in memo:
+            return memo[key]
+        seen = seen if seen is not None else set()
+        if name in seen:
+            return False
+        seen.add(name)
+        cands = []
+        for k in prog.mro(cls):
+            if not isinstance(k, str) and name in k.methods:
+                cands.append(k.methods[name])
+                break
+        for k in prog.subclasses(cls, strict=True):
+            if name in k.methods:
+                cands.append(k.methods[name])
+        res = False
+        for g_ in cands:
+            if attr in direct.get(g_.qualname, ()):
+                res = True
+                break
+            for c in norm.calls_in(g_.node):
+                if isinstance(c.func, ast.Attribute) and isinstance(c.func.value, ast.Name) and c.func.value.id == "self" \
+                        and rebinds(cls, attr, c.func.attr, seen):
+                    res = True
+                    break
+                # Base.m(self, ...): the explicitly named base implementation
+                if isinstance(c.func, ast.Attribute) and isinstance(c.func.value, ast.Name) and c.args and isinstance(c.args[0], ast.Name) \
+                        and c.args[0].id == "self":
+                    base = [b for b in prog.mro(cls) if not isinstance(b, str) and b.name == c.func.value.id and c.func.attr in b.methods]
+                    if base and attr in direct.get(base[0].methods[c.func.attr].qualname, ()):
+                        res = True
+                        break
+            if res:
+                break
+        memo[key] = res
+        return res
+    n = 0
+    for f in prog.functions.values():
+        if f.cls is None or f.module.name.startswith(("whoosh.lang", "whoosh.support")):
+            continue
+        al = [(st.targets[0].id, st.value.attr, st) for st in ast.walk(f.node)
+              if isinstance(st, ast.Assign) and len(st.targets) == 1 and isinstance(st.targets[0], ast.Name)
+              and isinstance(st.value, ast.Attribute) and isinstance(st.value.value, ast.Name) and st.value.value.id == "self"]
+        if not al:
+            continue
+        g = cfgmod.cfg_of(f)
+        for x, attr, st in al:
+            defn = [n_ for n_ in g.nodes if n_.ast is st]
+            if not defn:
+                continue
+            n += 1
+
+            def kills(n_, _x=x, _st=st):
+                a = n_.ast
+                if a is None or a is _st:
+                    return False
+                root = a.target if n_.kind == "for" else a
+                if n_.kind in ("stmt", "for", "with_enter", "except_entry"):
+                    for y in ast.walk(root):
+                        if isinstance(y, ast.Name) and y.id == _x and isinstance(y.ctx, ast.Store):
+                            return True
+                return False
+
+            def is_rebind(n_, _attr=attr, _st=st):
+                a = n_.ast
+                if a is None or a is _st or kills(n_):
+                    return False
+                if n_.kind == "stmt" and isinstance(a, (ast.Assign, ast.AugAssign)):
+                    tg = a.targets if isinstance(a, ast.Assign) else [a.target]
+                    for t in tg:
+                        for y in (t.elts if isinstance(t, (ast.Tuple, ast.List)) else [t]):
+                            if isinstance(y, ast.Attribute) and norm.canon(y) == "self." + _attr:
+                                return True
+                for frag in cfgmod.node_exprs(n_):
+                    for c in norm.calls_in(frag):
+                        if isinstance(c.func, ast.Attribute) and isinstance(c.func.value, ast.Name) and c.func.value.id == "self" \
+                                and rebinds(f.cls, _attr, c.func.attr):
+                            return True
+                return False
+
+            def mutates(n_, _x=x):
+                for frag in cfgmod.node_exprs(n_):
+                    for c in norm.calls_in(frag):
+                        if isinstance(c.func, ast.Attribute) and c.func.attr in STALE_MUTATORS and isinstance(c.func.value, ast.Name) \
+                                and c.func.value.id == _x:
+                            return True
+                    for s_ in ast.walk(frag):
+                        if isinstance(s_, ast.Subscript) and isinstance(s_.ctx, (ast.Store, ast.Del)) and isinstance(s_.value, ast.Name) \
+                                and s_.value.id == _x:
+                            return True
+                return False
+            p1 = cfgmod.find_path(g, defn[0], is_rebind, avoid_pred=kills)
+            bad = None
+            if p1 is not None:
+                p2 = cfgmod.find_path(g, p1[-1], mutates, avoid_pred=lambda n_: kills(n_))
+                if p2 is not None:
+                    bad = p1 + p2[1:]
+            if bad is not None:
+                ctx.saw(f)
+                ctx.ob(f, False, "`%s` (an alias of self.%s) is not used to mutate/advance the object after self.%s was re-bound" % (x, attr, attr),
+                       detail="alias taken at line %d, self.%s re-bound at line %s, `%s` worked on at line %s" % (
+                           st.lineno, attr, getattr(p1[-1].ast, "lineno", "?"), x, getattr(bad[-1].ast, "lineno", "?")),
+                       path=cfgmod.path_text(bad), loc=ctx.nodeloc(f, st))
+    ctx.ob("whole program", n > 300, "%d local aliases of instance attributes followed through their methods" % n)
+    if n < 300:
+        raise AnalysisError("only %d attribute aliases found" % n)
